@@ -242,6 +242,10 @@ def _registry():
     reg("N2:list-0d", lambda: [np.array(1.5 + 0.1j), np.array(1.6)], False)
     reg("wip:arr", lambda: np.arange(8.0).reshape(4, 2) / 4, False)
     reg("wip:list", lambda: [[0.0, 0.25], [0.5, 0.75]])
+    # arrays with a degenerate axis (one-parameter models, a single walker)
+    reg("wip:col", lambda: np.arange(4.0).reshape(4, 1) / 4, False)
+    reg("wip:row", lambda: np.arange(1.0, 4.0).reshape(1, 3) / 4, False)
+    reg("wip:1x1", lambda: np.array([[0.625]]), False)
     reg("wip:tuple", lambda: ((0.0, 0.25), (0.5, 0.75)), False)
 
     # ---- dicts -----------------------------------------------------------
@@ -440,7 +444,8 @@ NAME = ["None", "str:par", "str:odd", "str:num"]
 INTS = ["int7", "i64", "i32"]
 SEED = [OMIT, "None", "int7", "i64", "int0"]
 NPIX = [OMIT, "None", "int40", "i64"]
-WIP = [OMIT, "None", "wip:arr", "wip:list", "wip:tuple"]
+WIP = [OMIT, "None", "wip:arr", "wip:list", "wip:tuple", "wip:col", "wip:row",
+       "wip:1x1"]
 PARALLEL = [OMIT, "None", "str:auto", "int2", "str:mpi", "i64"]
 TOL = [OMIT, "1e-300", "f64", "f32", "int0"]
 ROT3 = [OMIT] + VEC3
@@ -469,7 +474,7 @@ BP:single BP:list1 BP:pair BP:pair-priors BP:pair-f32 BP:nested BP:shared
 M:sphere M:sphere-fixed M:sphere-cplx M:sphere-derived M:spheres
 M:spheres-shared O:red-green O:red-green-prior O:pol-dict O:pol-list
 O:pol-tuple O:list2 O:xr C:limit C:limit-list C:empty
-none tie1 tie2
+none tie1 tie2 tiex
 """.split())
 TSET = set("""
 1/3 1e300 f64-lo f64-hi npTrue npFalse str:odd
@@ -642,7 +647,7 @@ TABLE["ExactModel"] = dict(
     calc_func=[OMIT, "F:calc_holo", "F:calc_intensity", "F:calc_field"],
     **_OPTICS)
 TIES_AXIS = "(ties)"
-TIES = ["none", "tie1", "tie2"]
+TIES = ["none", "tie1", "tie2", "tiex"]
 # per scatterer label: the add_tie calls (parameter names, new name)
 TIE_PLANS = {
     "M:sphere": [(["center.0", "center.1"], None), (["r", "center.0"], "rx")],
@@ -709,6 +714,10 @@ def _side_condition(clsname, vec):
         return two == (g("n") == "N2:list")
     if clsname in MODEL_CLASSES:
         t = g(TIES_AXIS, "none")
+        if t == "tiex":
+            # needs equal priors inside and outside the scatterer
+            return g("scatterer") in ("M:sphere", "M:sphere-tuple") and \
+                "P:U-int" in (g("alpha"), g("noise_sd"))
         if t != "none":
             plan = TIE_PLANS.get(g("scatterer"), [])
             return len(plan) >= int(t[-1])
@@ -789,7 +798,7 @@ def class_axes(clsname, cls, tier):
 MQSET = set("""
 M:sphere-cplx M:sphere-derived M:spheres-shared 0.75 P:U-int
 O:red-green-prior None 0.25 O:red-green 1.5 P:U O:pol-tuple O:pol-dict
-T:Mie-opts T:MieLens-prior str:auto C:limit F:calc_intensity tie1 tie2
+T:Mie-opts T:MieLens-prior str:auto C:limit F:calc_intensity tie1 tie2 tiex
 """.split())
 
 
@@ -1326,8 +1335,20 @@ def build(clsname, vec):
         return "not-constructible", e, plain, call
     if clsname in MODEL_CLASSES:
         t = vec.get(TIES_AXIS, "none")
-        if t != "none":
+        if t == "tiex":
+            # a tie that cannot be expressed by sharing one prior object:
+            # a scatterer parameter with the scaling or the noise level
+            # (possible whenever their priors are equal)
+            names = list(obj.parameters)
+            inside = [n for n in ("r", "center.0", "0:center.0", "r.0")
+                      if n in names]
+            outside = [n for n in ("alpha", "noise_sd") if n in names]
+            if not inside or not outside:
+                return "refused", ValueError("no cross tie"), plain, call
+            plan = [([inside[0], outside[0]], None)]
+        elif t != "none":
             plan = TIE_PLANS[vec["scatterer"]][:int(t[-1])]
+        if t != "none":
             try:
                 for names, new in plan:
                     obj.add_tie(list(names), new)
